@@ -26,8 +26,10 @@ pub enum Fate {
     E301,
     E302,
     E999,
+    /// acknowledgement flagged read-only (`ro = 1`): the sender declares that it does not serve requests
+    AckRo,
 }
-pub const FATES: [Fate; 8] = [Fate::Ack, Fate::Lost, Fate::Late, Fate::E203, Fate::E205, Fate::E301, Fate::E302, Fate::E999];
+pub const FATES: [Fate; 9] = [Fate::Ack, Fate::Lost, Fate::Late, Fate::E203, Fate::E205, Fate::E301, Fate::E302, Fate::E999, Fate::AckRo];
 
 #[derive(Default)]
 struct Obs {
@@ -91,6 +93,11 @@ pub fn scenario(r: &mut Report, c: &Case) {
                 Fate::E301 => (error(&q.t, 301, "cas mismatch").encode(), 0),
                 Fate::E302 => (error(&q.t, 302, "seq less than current").encode(), 0),
                 Fate::E999 => (error(&q.t, 999, "whatever").encode(), 0),
+                Fate::AckRo => {
+                    let mut m = response(&q.t, B::dict(vec![("id", B::bytes(&me))]), Some(&d.from), Some(&VERSION_RS6));
+                    m.set("ro", B::Int(1));
+                    (m.encode(), 0)
+                }
             };
             w.raw_send_delayed(sock, &bytes, d.from, delay);
             return true;
@@ -421,7 +428,7 @@ pub fn run(a: &Args) -> Report {
                     continue;
                 }
                 let mut x = assignment;
-                let fates: Vec<Fate> = (0..n).map(|_| { let f = FATES[(x % 8) as usize]; x /= 8; f }).collect();
+                let fates: Vec<Fate> = (0..n).map(|_| { let f = FATES[(x % 9) as usize]; x /= 9; f }).collect();
                 run_case(&mut r, Case { seed: mix(a.seed, code), kind, fates, tokenless: vec![], n, default_fate: Fate::Ack, extra_rounds: 0, tokenless_mode: 0 });
                 r.count("exhaustive_assignments");
             }
